@@ -7,6 +7,19 @@ _A_NOTE = ('Trusted: CrossHair 0.0.110 proxy semantics and path pruning, z3 5.1.
            'before a VIOLATION is printed.')
 
 CLAIMS = {
+    'C13': dict(
+        engine='A-crosshair',
+        technique='solver-enumerated bounded family (CrossHair + z3 certify the selector space is covered; the text pipeline runs on realised selectors under NoTracing); emitted fiddler executed and compared canonically with apply_diff',
+        text=('For every diff produced by build_diff over the C10 pair family (three-node DAG `old`, `new` = two of 14 '
+              'edit kinds at solver-chosen nodes on a deep copy, on a shallow copy sharing objects with old, or on an '
+              'unrelated member; six wrapper kinds) and for eight hand-assembled diffs (a shared value referring to a '
+              'replaced old path; forward and backward references among shared values; a swap by references; a child '
+              'salvaged from a deleted and from a replaced subtree; a callable change with tags on parameters of the '
+              'new callable; a shared Config whose name sorts before the shared list it holds), both variable-naming '
+              'modes and old supplied or not: the text emitted by fiddler_from_diff compiles, and running the fiddler '
+              'on a deep copy of old gives a configuration canonically equal (callables, arguments, tags, aliasing) '
+              'to what apply_diff gives on another deep copy - or both fail.'),
+        note=_A_NOTE + ' Text pipeline: selectors concretised by comparisons, body under NoTracing (symbolic_leaves: false). The pair family is C10\'s.'),
     'C12': dict(
         engine='A-crosshair',
         technique='solver-enumerated bounded family (CrossHair + z3 certify the selector space is covered; the text pipeline runs on realised selectors under NoTracing); generated module compiled, executed and compared canonically',
@@ -311,8 +324,7 @@ CLAIMS = {
         note=_A_NOTE + ' Reference semantics: DESIGN.md Appendix A.'),
 }
 
-NOT_APPLICABLE = {p: 'check not built yet in this session (design in DESIGN.md section 4); will be claimed once its harness runs clean'
-                  for p in [f'C{i:02d}' for i in range(1, 21)]}
+NOT_APPLICABLE = {}      # every property is decided with the technique (clauses outside its reach: DESIGN.md section 5)
 
 NOTES = ('Every check is `./check <ID> --tier quick|thorough`; the encoding is the symbolic execution of /repo\'s '
          'current working tree (nothing cached). Genuine defects found by the checks were repaired by "fix:" commits '
